@@ -529,6 +529,7 @@ func registerLibIntrinsics(p *Program) {
 		return ex.call(fr, fr.callPos, newFn, nil)
 	})
 	p.reg("(*sync.Pool).Put", noop)
+	p.reg("internal/abi.NoEscape", func(ex *Exec, fr *Frame, args []Value) Value { return args[0] })
 }
 
 func ptrCell(v Value) *Value { return &v }
@@ -804,4 +805,78 @@ func (ex *Exec) runReal(fr *Frame, name string, args []Value) Value {
 		ex.runFrame(nf)
 	}
 	return nf.result
+}
+
+// ---- time: a harness-controlled clock; timers never fire on their own ----
+func init() {
+	extraIntrinsics = append(extraIntrinsics, func(p *Program) {
+		now := func(ex *Exec) Value {
+			if ex.clock == nil {
+				ex.clock = mkConst(64, 63_900_000_000) // an instant in 2025, seconds since year 1
+			}
+			return Struct{mkConst(64, 0), ex.clock, (*Value)(nil)}
+		}
+		p.reg("time.Now", func(ex *Exec, fr *Frame, args []Value) Value { return now(ex) })
+		p.reg("verif_SetClock", func(ex *Exec, fr *Frame, args []Value) Value {
+			// seconds after the model epoch; may be symbolic
+			ex.clock = mkBin(OpAdd, mkConst(64, 63_900_000_000), args[0].(*Term))
+			return nil
+		})
+		newTimer := func(ex *Exec, withChan bool) Value {
+			tt := ex.p.namedType("time", "Timer")
+			t := zero(tt).(Struct)
+			if withChan {
+				ex.nextChanID++
+				tm := ex.p.namedType("time", "Time")
+				ex.setField(t, tt, "C", &Chan{id: ex.nextChanID, cap: 1, elemT: tm})
+			}
+			var cell Value = t
+			return &cell
+		}
+		p.reg("time.NewTimer", func(ex *Exec, fr *Frame, args []Value) Value { return newTimer(ex, true) })
+		p.reg("time.AfterFunc", func(ex *Exec, fr *Frame, args []Value) Value {
+			t := newTimer(ex, false)
+			ex.timers = append(ex.timers, timerRec{fn: args[1]})
+			return t
+		})
+		p.reg("time.After", func(ex *Exec, fr *Frame, args []Value) Value {
+			ex.nextChanID++
+			return &Chan{id: ex.nextChanID, cap: 1, elemT: ex.p.namedType("time", "Time")}
+		})
+		p.reg("(*time.Timer).Stop", func(ex *Exec, fr *Frame, args []Value) Value { return tTrue })
+		p.reg("(*time.Timer).Reset", func(ex *Exec, fr *Frame, args []Value) Value { return tTrue })
+		p.reg("time.Sleep", func(ex *Exec, fr *Frame, args []Value) Value {
+			ex.schedule("sleep")
+			return nil
+		})
+		p.reg("time.Since", func(ex *Exec, fr *Frame, args []Value) Value {
+			// Now().Sub(t) through the real method
+			sub := ex.findMethod(ex.p.namedType("time", "Time"), "Sub")
+			return ex.callSSA(fr, fr.callPos, sub, []Value{now(ex), args[0]}, nil)
+		})
+		// verif_FireTimers runs every function registered with time.AfterFunc (harness-driven)
+		p.reg("verif_FireTimers", func(ex *Exec, fr *Frame, args []Value) Value {
+			ts := ex.timers
+			for _, t := range ts {
+				ex.call(fr, fr.callPos, t.fn, nil)
+			}
+			return nil
+		})
+	})
+}
+
+type timerRec struct{ fn Value }
+
+func init() {
+	extraIntrinsics = append(extraIntrinsics, func(p *Program) {
+		// context.WithValue checks comparability through reflectlite; build the value context directly
+		p.reg("context.WithValue", func(ex *Exec, fr *Frame, args []Value) Value {
+			if pi, ok := args[0].(Iface); !ok || pi.t == nil {
+				ex.throwMsg(fr, fr.callPos, "cannot create context from nil parent")
+			}
+			vt := ex.p.namedType("context", "valueCtx")
+			var cell Value = Struct{args[0], args[1], args[2]}
+			return Iface{t: types.NewPointer(vt), v: &cell}
+		})
+	})
 }
